@@ -9,6 +9,8 @@
 #include <algorithm>
 
 extern "C" {
+size_t __real_fwrite(const void *, size_t, size_t, FILE *);
+int __real_fclose(FILE *);
 FILE *__real_fopen(const char *, const char *);
 int __real_fileno(FILE *);
 int __real_fstat(int, struct stat *);
@@ -107,12 +109,35 @@ int log_path_closes() { return g_log_closes; }
 void set_log_path_fopen_errno(int e) { g_log_fopen_errno = e; }
 void write_stream_fail(int nth, int e, size_t accept) { g_wfail_n = nth; g_wfail_errno = e; g_wfail_accept = accept; }
 int write_stream_failures() { return g_wfailures; }
-void reset() { g_wfail_n = 0; g_wfailures = 0; g_fail_pending = false; g_log_cb = nullptr; g_log_ud = nullptr; g_log_opens = g_log_closes = 0; g_log_fopen_errno = 0; g_script = ReadScript(); g_rstats = ReadStats(); }
+static write_cb g_stderr_cb = nullptr;
+static void *g_stderr_ud = nullptr;
+static int g_std_closes = 0;
+void set_stderr_sink(write_cb cb, void *ud) { g_stderr_cb = cb; g_stderr_ud = ud; }
+int std_stream_closes() { return g_std_closes; }
+void reset() { g_stderr_cb = nullptr; g_stderr_ud = nullptr; g_std_closes = 0; g_wfail_n = 0; g_wfailures = 0; g_fail_pending = false; g_log_cb = nullptr; g_log_ud = nullptr; g_log_opens = g_log_closes = 0; g_log_fopen_errno = 0; g_script = ReadScript(); g_rstats = ReadStats(); }
 
 } // namespace simfile
 
 using namespace simfile;
 extern "C" {
+// The process's standard streams belong to the process: what the code under test writes to stderr during a run is delivered to the
+// harness's sink (one call per fwrite, like a write stream), and an fclose of a standard stream is recorded and not carried out.
+size_t __wrap_fwrite(const void *ptr, size_t size, size_t n, FILE *f) {
+    if (f == stderr && g_stderr_cb && sim::active()) {
+        sim::yield(sim::PK_HARNESS, nullptr, 11);
+        g_stderr_cb((const char *)ptr, size * n, g_stderr_ud);
+        return n;
+    }
+    return __real_fwrite(ptr, size, n, f);
+}
+int __wrap_fclose(FILE *f) {
+    if ((f == stderr || f == stdout || f == stdin) && sim::active()) {
+        g_std_closes++;
+        sim::probe("fclose_of_a_standard_stream");
+        return 0;
+    }
+    return __real_fclose(f);
+}
 FILE *__wrap_fopen(const char *path, const char *mode) {
     if (path && !strcmp(path, kPath) && sim::active()) {
         g_rstats.opens++;
